@@ -9,7 +9,6 @@ package docxw
 import (
 	"archive/zip"
 	"bytes"
-	"fmt"
 	"io"
 	"reflect"
 	"strconv"
@@ -285,7 +284,9 @@ func readBack(t testing.TB, data []byte) (blocks []rbBlock, header, footer []str
 				if np := ppr.First("numPr"); np != nil {
 					b.Kind = wpmodel.BItem
 					b.NumID = np.First("numId").A(NsW, "val")
-					b.Depth, _ = strconv.Atoi(np.First("ilvl").A(NsW, "val"))
+					if il := np.First("ilvl"); il != nil {
+						b.Depth, _ = strconv.Atoi(il.A(NsW, "val"))
+					}
 					f, ok := numFmt[b.NumID][strconv.Itoa(b.Depth)]
 					if !ok {
 						t.Fatalf("numId %s level %d not defined", b.NumID, b.Depth)
@@ -346,6 +347,9 @@ func readTable(t testing.TB, tbl *wpmodel.Node) rbBlock {
 		nextOpen := map[int]int{}
 		for _, tc := range tr.Elems("tc") {
 			pr := tc.First("tcPr")
+			if pr == nil {
+				pr = &wpmodel.Node{}
+			}
 			span := 1
 			if g := pr.First("gridSpan"); g != nil {
 				span, _ = strconv.Atoi(g.A(NsW, "val"))
@@ -502,5 +506,4 @@ func TestPlainSpelling(t *testing.T) {
 	if !strings.Contains(doc, want) {
 		t.Fatalf("unexpected spelling:\n%s", doc)
 	}
-	fmt.Sprint()
 }
